@@ -165,7 +165,7 @@ def worker_main(argv):
         break
       rng = case_rng(a.prop, a.seed, idx)
       if env is not None:
-        env.begin_case(rng)
+        env.begin_case(rng, idx)
       signal.setitimer(signal.ITIMER_REAL, case_limit)
       try:
         res = check.run_case(env, rng, idx, a.tier)
